@@ -771,12 +771,21 @@ func (c *c16) genCase(wild bool) {
 // genConcCase: 2-4 goroutines issue operations on the same three payments
 // concurrently (monitor only: the answers depend on the schedule, so the
 // driver does not replay them on the model). Hashes 0 and 1 are initiated
-// before the goroutines start; every goroutine tries to initiate hash 2.
-// Goroutine g registers attempts with its own ids (g*16+n, on hash n%3),
-// amounts around a third to all of the payment amount so that the goroutines
-// compete for the remaining amount, and settles / fails attempts it registered
-// itself or (racing with the owner) the first attempts of another goroutine.
-// Lines are written in completion order and carry the goroutine number.
+// before the goroutines start; every goroutine first tries to initiate hash 2
+// (exactly one may win), then, after a barrier, runs its mix:
+//   - registrations with its own ids (g*16+n, on hash n%3), amounts around a
+//     third to all of the payment amount so that the goroutines compete for
+//     the remaining amount;
+//   - settles / fails of attempts it registered itself or (racing with the
+//     owner) the first attempts of another goroutine;
+//   - Fail (payment-level failure) of hash 0, which is never re-initiated or
+//     deleted in the concurrent phase;
+//   - DeleteFailedAttempts / DeletePayment / InitPayment of hash 1;
+//   - InitPayment of hash 2 (must be refused), fetches.
+// Every line carries the goroutine number and two stamps of a case-wide
+// atomic counter taken immediately before the call and immediately after it
+// returned: `A.e < B.s` means A returned before B was issued. Lines are
+// written in completion order.
 func (c *c16) genConcCase() {
 	c.startCase("conc")
 	values := [c16Hashes]uint64{}
@@ -791,16 +800,26 @@ func (c *c16) genConcCase() {
 	for g := range seeds {
 		seeds[g] = c.rng.Int63()
 	}
-	var wg sync.WaitGroup
+	var stamp int64
+	emit := func(g int, f func() string) string {
+		st := atomic.AddInt64(&stamp, 1)
+		line := f()
+		en := atomic.AddInt64(&stamp, 1)
+		c.pf("g=%d s=%d e=%d %s", g, st, en, line)
+		return line
+	}
+	var wg, phaseA sync.WaitGroup
 	start := make(chan struct{})
+	phaseA.Add(nG)
 	for g := 0; g < nG; g++ {
 		wg.Add(1)
 		go func(g int) {
 			defer wg.Done()
 			<-start
 			rng := rand.New(rand.NewSource(seeds[g]))
-			tag := fmt.Sprintf("g=%d ", g)
-			c.pf("%s%s", tag, c.opInit(2, values[2]))
+			emit(g, func() string { return c.opInit(2, values[2]) })
+			phaseA.Done()
+			phaseA.Wait()
 			var mine [c16Hashes][]uint64 // ids this goroutine got admitted
 			next := uint64(g * 16)
 			nOps := 8 + rng.Intn(10)
@@ -808,7 +827,7 @@ func (c *c16) genConcCase() {
 				h := rng.Intn(c16Hashes)
 				v := values[h]
 				switch r := rng.Intn(100); {
-				case r < 55 && next < uint64(g*16+16):
+				case r < 50 && next < uint64(g*16+16):
 					id := next
 					next++
 					// the n-th registration of every goroutine goes
@@ -833,12 +852,14 @@ func (c *c16) genConcCase() {
 					if blinded {
 						kind = "b"
 					}
-					line := c.opReg(h, id, amt, kind, 1, total, uint64(rng.Intn(3)))
-					c.pf("%s%s", tag, line)
+					fee := uint64(rng.Intn(3))
+					line := emit(g, func() string {
+						return c.opReg(h, id, amt, kind, 1, total, fee)
+					})
 					if strings.Contains(line, "=> ok") {
 						mine[h] = append(mine[h], id)
 					}
-				case r < 83:
+				case r < 74:
 					// resolve an attempt this goroutine got admitted
 					// or (racing with its owner) one of another
 					// goroutine's first attempts
@@ -851,17 +872,25 @@ func (c *c16) genConcCase() {
 						id = mine[h][k]
 						mine[h] = append(mine[h][:k], mine[h][k+1:]...)
 					}
-					if r < 75 {
-						c.pf("%s%s", tag, c.opFailAtt(h, id))
+					if r < 67 {
+						emit(g, func() string { return c.opFailAtt(h, id) })
 					} else {
-						c.pf("%s%s", tag, c.opSettle(h, id))
+						emit(g, func() string { return c.opSettle(h, id) })
 					}
-				case r < 90:
-					c.pf("%s%s", tag, c.opInit(h, v))
-				case r < 96:
-					c.pf("%s%s", tag, c.opFetch(h))
+				case r < 80:
+					reason := rng.Intn(6)
+					emit(g, func() string { return c.opFail(0, reason) })
+				case r < 85:
+					emit(g, func() string { return c.opDelFailed(1) })
+				case r < 88:
+					emit(g, func() string { return c.opDel(1) })
+				case r < 93:
+					hh := 1 + rng.Intn(2)
+					emit(g, func() string { return c.opInit(hh, values[hh]) })
+				case r < 98:
+					emit(g, func() string { return c.opFetch(h) })
 				default:
-					c.pf("%s%s", tag, c.opInflight())
+					emit(g, func() string { return c.opInflight() })
 				}
 			}
 		}(g)
